@@ -74,10 +74,10 @@ func checkC07(c *Ctx) {
 	derivedViews := map[string]bool{"GetNoteStart": true, "GetNoteEnd": true, "GetChannel": true}
 
 	type ctorRun struct {
-		name string
-		fn   *ssa.Function
-		spec func(st *State, args []*IntV) ([]*IntV, string) // expected bytes
-		want func(st *State, args []*IntV) ([]*IntV, string) // expected accessor outputs (in out-param order)
+		name   string
+		fn     *ssa.Function
+		spec   func(st *State, args []*IntV) ([]*IntV, string) // expected bytes
+		want   func(st *State, args []*IntV) ([]*IntV, string) // expected accessor outputs (in out-param order)
 		getter string
 		rule   string
 	}
@@ -394,10 +394,68 @@ func checkC07(c *Ctx) {
 	// C07.5 loopback: decoder = receiver model, listener stage = identity, loopback Send = pipe
 	liveSimulation(c, "C07.5", "", "", true)
 	retypingRule(c, "C07.5", "")
+	sendToRule(c, "C07.5")
 	loopbackRule(c, "C07.5")
 }
 
 // st0conv converts the expected value to the width/sign of the observed cell.
 func st0conv(st *State, want, got *IntV) *IntV {
 	return st.Convert(want, got.W, got.Signed)
+}
+
+// sendToRule: the sending wrapper midi.SendTo hands the message's bytes to the port unchanged: the function it returns is
+// interpreted on a symbolic message (any length >= 1); the port's Send must be invoked exactly once with exactly those
+// bytes, and its error returned.
+func sendToRule(c *Ctx, rule string) {
+	p := c.P
+	st0 := p.Func("", "SendTo")
+	if st0 == nil {
+		c.Unk(rule, "midi.SendTo", "-", "not found")
+		return
+	}
+	c.Fn(FuncName(st0))
+	ex := NewExec(p)
+	st := ex.NewState()
+	port := &IfaceV{Unk: true, NonNil: true}
+	ok, why, n := true, "", 0
+	for _, o := range ex.Call(st, st0, []Val{port}, nil) {
+		if o.Panic {
+			ok, why = false, o.Msg
+			continue
+		}
+		if ev, _ := o.Ret[1].(*IfaceV); ev == nil || !ev.Nil {
+			continue // the port could not be opened
+		}
+		fv, _ := o.Ret[0].(*FuncV)
+		if fv == nil || fv.Fn == nil {
+			ok, why = false, "SendTo does not return a function"
+			continue
+		}
+		msg := ex.unknownSlice(o.St, types.Typ[types.Uint8], "msg", 1)
+		want, _ := ex.sliceSegs(o.St, msg)
+		fr := &Frame{fn: fv.Fn, regs: map[ssa.Value]Val{}, visits: map[*ssa.BasicBlock]int{}, widened: map[*ssa.BasicBlock]bool{}, phiHist: map[*ssa.Phi]Val{}, kept: map[*ssa.Phi]keptInv{}}
+		for _, r := range ex.callValue(fr, o.St, fv, []Val{msg}, nil, nil) {
+			n++
+			if r.panic {
+				ok, why = false, "the send function may panic: "+r.msg
+				continue
+			}
+			k := 0
+			for _, e := range r.st.Events {
+				if e.Kind != "call:invoke Send" || len(e.Args) != 1 {
+					continue
+				}
+				k++
+				sl, _ := e.Args[0].(*SliceV)
+				got, okG := ex.sliceSegs(r.st, sl)
+				if sl == nil || !okG || !r.st.sameInt(sl.Len, msg.Len) || segsDiffer(r.st, got, want) != "" {
+					ok, why = false, fmt.Sprintf("the bytes handed to the port (%s, len %s) are not the message's bytes (%s, len %s): %s", arrayStringIn(r.st, &ArrayV{Segs: got}), valString(e.Args[0]), arrayStringIn(r.st, &ArrayV{Segs: want}), msg.Len, segsDiffer(r.st, got, want))
+				}
+			}
+			if k != 1 {
+				ok, why = false, fmt.Sprintf("the port's Send is invoked %d times for one message", k)
+			}
+		}
+	}
+	c.Check(ok && n > 0, rule, "SendTo hands the message bytes to the port unchanged, once", p.Pos(st0.Pos()), "symbolic message of any length >= 1", why)
 }
